@@ -6,7 +6,6 @@ use crate::driver::*;
 use crate::engine::*;
 use crate::layout::*;
 use crate::model::*;
-use crate::props::util::*;
 use crate::refgrammar;
 use crate::refsem::Answer;
 use crate::space::*;
